@@ -292,8 +292,10 @@ def part_conflict(ctx, cfg):
         s2 = {'port': {'v': {'_value': b}}}
         must_raise = NOT(EQ(a, b))
     else:
+        # also units of the same dimension that differ (g / mg, m / mm)
         u1 = [units.g, units.m][ctx.choice('u1', 2)]
-        u2 = [units.g, units.m, units.s][ctx.choice('u2', 3)]
+        u2 = [units.g, units.m, units.s, units.mg, units.mm][
+            ctx.choice('u2', 5)]
         if kind == 1:
             s1 = {'port': {'v': {'_default': 1 * u1, '_units': u1}}}
             s2 = {'port': {'v': {'_default': 1 * u2, '_units': u2}}}
